@@ -533,6 +533,12 @@ def Mode.wf {α : Type} (k : Str) : Mode α → Prop
   | .ackThenEv m => m.ok = true ∧ m.key = some k
   | _ => True
 
+/-- no answer can arrive on an ended event stream: the modes that remain -/
+def Mode.noEvent {α : Type} : Mode α → Bool
+  | .evThenAck _ => false
+  | .ackThenEv _ => false
+  | _ => true
+
 structure Req (α : Type) where
   key : Str
   mode : Mode α
